@@ -168,6 +168,14 @@ func (h *Hist) ksId(handle int64) string {
 	if handle >= 0 && int(handle) < len(h.tm.Order) {
 		return h.tm.Order[handle]
 	}
+	switch handle { // degenerate spellings of an unknown keyset
+	case -4:
+		return ""
+	case -5:
+		return "0"
+	case -6:
+		return "00"
+	}
 	return "00ffffffffffffff"[:16-int(-handle)%3] + strings.Repeat("a", int(-handle)%3)
 }
 
